@@ -46,8 +46,8 @@ def _mk():
         add(nm, 'ranked', 'sel', (lambda mk=mk: core.PreConverted(conv.RankedToPositionalVotes(mk()), P())), family='positional')
     add('bucklin', 'ranked', 'sel', lambda: seq.PreferenceAddition())
     add('oklahoma', 'ranked', 'sel', lambda: seq.PreferenceAddition(coefficients=lambda i: Fraction(1, i + 1)))
-    add('stv_hare', 'ranked', 'sel', lambda: seq.TransferableVoteSelector(quota_function='hare'), family='transferable_vote', needs='noshared')
-    add('stv_hb', 'ranked', 'sel', lambda: seq.TransferableVoteSelector(quota_function='hagenbach_bischoff'), family='transferable_vote', needs='noshared')
+    add('stv_hare', 'ranked', 'sel', lambda: seq.TransferableVoteSelector(quota_function='hare'), family='transferable_vote')
+    add('stv_hb', 'ranked', 'sel', lambda: seq.TransferableVoteSelector(quota_function='hagenbach_bischoff'), family='transferable_vote')
     add('stv_droop', 'ranked', 'sel', lambda: seq.TransferableVoteSelector(quota_function='droop'), family='transferable_vote',
         scale_free=False, needs='noshared')
     add('stv_dist_droop', 'ranked', 'dist', lambda: seq.TransferableVoteDistributor(quota_function='droop'), family='transferable_vote',
